@@ -9,6 +9,7 @@ mod runner;
 mod scenario;
 mod send;
 mod settings;
+mod storage;
 
 use {
   anyhow::{Result, anyhow},
@@ -187,6 +188,11 @@ fn main() -> Result<()> {
       arg_value(&args, "--seed").map(|s| s.parse().unwrap()).unwrap_or(0),
       arg_value(&args, "--n").map(|s| s.parse().unwrap()).unwrap_or(3),
       arg_value(&args, "--blocks").map(|s| s.parse().unwrap()).unwrap_or(16),
+      &arg_value(&args, "--out").ok_or_else(|| anyhow!("--out"))?,
+    ),
+    "storage" => storage::run(
+      arg_value(&args, "--seed").map(|s| s.parse().unwrap()).unwrap_or(0),
+      arg_value(&args, "--n").map(|s| s.parse().unwrap()).unwrap_or(200),
       &arg_value(&args, "--out").ok_or_else(|| anyhow!("--out"))?,
     ),
     "crash-child" => runner::crash_child(&args[1..]),
